@@ -16,6 +16,10 @@ type Plan struct {
 	// NoJudge lists oracles whose precondition this plan violates by construction; they give no
 	// verdict on it even when a check overrides Judge.
 	NoJudge []string `json:"no_judge,omitempty"`
+	// StartDuringStop: Start calls are issued also while a stop call of the same instance has not
+	// returned (deterministic mode normally skips them). A Start that succeeds inside a stop call
+	// begins a new run; that stop call's return then says nothing about the new run.
+	StartDuringStop bool `json:"start_during_stop,omitempty"`
 
 	H      Dur    `json:"h"`   // heartbeat interval (all instances)
 	TTL    Dur    `json:"ttl"` // election TTL == bucket MaxAge
